@@ -214,7 +214,16 @@ loop:
 		if condKind(typ) == kMQ && round&7 == 3 {
 			op = lAddCtrl
 		}
-		if out := qu.Call(op, round); out.K == 1 && out.Ares != 0 {
+		// every other add goes through the retrying variant (AddReqAnyway / AddAnyway / AddCtrlAnyway) where there is one
+		out := cOut{}
+		viaAnyway := false
+		if round&1 == 1 {
+			out, viaAnyway = qu.CallAnyway(op, round)
+		}
+		if !viaAnyway {
+			out = qu.Call(op, round)
+		}
+		if out.K == 1 && out.Ares != 0 {
 			obs.Note = "add refused on an open unbounded queue"
 			obs.Outstanding, obs.Parked = 1, nc
 			lost = true
